@@ -110,6 +110,17 @@ def run(chk):
                 pool.append((doc, demes.Graph.fromdict(doc)))
             except Exception:
                 chk.count("family_rejected")
+        # clique-layout families: ordered pairs that belong to a collapsible symmetric group and also carry a separate
+        # migration in another interval or at another rate (what simplified output has to keep apart)
+        for _ in range(60 if chk.tier == "quick" else 900):
+            fam = gen.clique_family(rng, keys=rng.choice([1, 2, 2, 3]))
+            try:
+                with warnings.catch_warnings():
+                    warnings.simplefilter("ignore")
+                    pool.append((fam, demes.Graph.fromdict(fam)))
+                chk.count("family_clique")
+            except Exception:
+                chk.count("family_rejected")
         for i, (doc, g) in enumerate(pool):
             want = g.asdict()
             for fmt in ("yaml", "json"):
